@@ -21,33 +21,33 @@ Proof.
   destruct (is_const did); [discriminate|reflexivity].
 Qed.
 
-(* --- `modify`: with the is_callback requirement, the binding that was checked is the captured one *)
-Lemma lookup_cb_true : forall r x k cb, lookup_skip_cb r x 0 true = Some (k, cb) -> lookup_all r x = Some k.
+(* --- `modify`: with the is_callback requirement, the declaration that was checked is the captured one *)
+Lemma lookup_cb_true : forall r x k cb, lookup_decl_cb r x 0 true = Some (k, cb) -> lookup_decl r x = Some k.
 Proof.
   induction r as [|s r IH]; intros x k cb H; cbn in H; [discriminate|].
-  unfold lookup_all. cbn. destruct (contains (vars s) x) as [c|].
+  cbn [lookup_decl]. destruct (contains_decl (vars s) x) as [c|].
   - injection H as <- _. reflexivity.
   - apply (IH x k cb). exact H.
 Qed.
 
-Lemma lookup_cb_outer : forall r x k, lookup_skip_cb r x 0 false = Some (k, true) -> lookup_outer r x = Some k.
+Lemma lookup_cb_outer : forall r x k, lookup_decl_cb r x 0 false = Some (k, true) -> lookup_outer r x = Some k.
 Proof.
   induction r as [|s r IH]; intros x k H; cbn in H; [discriminate|].
-  destruct (contains (vars s) x) as [c|]; [discriminate|].
+  destruct (contains_decl (vars s) x) as [c|]; [discriminate|].
   cbn [lookup_outer]. destruct (is_function s).
   - eapply lookup_cb_true. exact H.
   - apply IH. exact H.
 Qed.
 
 Lemma assign_checks_modify_outer : forall did c x ss,
-  assign_checks cfg_fixed did c true x (add ss x c) = true -> is_const (lookup_outer ss x) = false.
+  assign_checks cfg_fixed did c true x (add_mod ss x) = true -> is_const (lookup_outer ss x) = false.
 Proof.
   intros did c x ss H. unfold assign_checks in H.
   destruct (is_const did); [discriminate|].
   destruct ss as [|s r]; [cbn in H; discriminate|].
-  cbn [add lookup_skip_cb orb] in H.
-  change (is_function (mkS (kind s) (mkB x c :: vars s))) with (is_function s) in H.
-  destruct (lookup_skip_cb r x 0 (is_function s)) as [[k cb]|] eqn:E; [|discriminate].
+  cbn [mod_through cfg_fixed add_mod lookup_decl_cb orb] in H.
+  change (is_function (mkS (kind s) (mkBind x false true :: vars s))) with (is_function s) in H.
+  destruct (lookup_decl_cb r x 0 (is_function s)) as [[k cb]|] eqn:E; [|discriminate].
   cbn [chk_modify_cb cfg_fixed andb] in H.
   destruct cb; cbn [negb] in H; [|discriminate].
   rewrite orb_true_r in H. cbn [andb] in H.
@@ -151,8 +151,8 @@ Proof. reflexivity. Qed.
 Lemma cs_assign : forall ss c m x rhs, check_stmt g ss (SAssign c m x rhs) =
   if c && m then None else
   if check_expr g ss rhs then
-    if assign_checks g (if m then lookup_all ss x else mapped_in_function ss x) c m x (add ss x c)
-    then Some (add ss x c) else None
+    if assign_checks g (if m then lookup_all ss x else mapped_in_function ss x) c m x (if m then add_mod ss x else add ss x c)
+    then Some (if m then add_mod ss x else add ss x c) else None
   else None.
 Proof. reflexivity. Qed.
 Lemma cs_unpack : forall ss c xs rhs, check_stmt g ss (SUnpack c xs rhs) =
@@ -275,8 +275,8 @@ Proof.
   - (* SAssign *) intros c m x rhs IHrhs ss ss'. rewrite cs_assign.
     destruct (c && m); [discriminate|].
     destruct (check_expr cfg_fixed ss rhs) eqn:Hr; [|discriminate].
-    destruct (assign_checks cfg_fixed (if m then lookup_all ss x else mapped_in_function ss x) c m x (add ss x c)) eqn:Ha;
-      [|discriminate].
+    destruct (assign_checks cfg_fixed (if m then lookup_all ss x else mapped_in_function ss x) c m x
+                (if m then add_mod ss x else add ss x c)) eqn:Ha; [|discriminate].
     intro H. inversion H; subst ss'. split; [reflexivity|].
     rewrite ws_assign. apply Forall_app; split; [auto|].
     destruct m.
@@ -419,4 +419,21 @@ Definition wit_modify_shadow : block :=
 Lemma modify_shadow_refuted :
   check cfg_pre_modify wit_modify_shadow = true /\ no_const_write_b wit_modify_shadow = false /\
   check cfg_fixed wit_modify_shadow = false.
+Proof. vm_compute. auto. Qed.
+
+(* ------------------------------------------------------------------ two `modify` of one captured variable:
+   /repo 745d438 (cfg_745) looked the target up among ALL scope entries, found the entry the first `modify`
+   had registered in the function's own scope and refused the second one -- a valid program:
+     x = 1;  f = fn() { modify x = 5; x; if c { modify x = 6 } } *)
+Definition wit_two_modifies : block :=
+  BCons (SAssign false false xx ELit)
+ (BCons (SAssign false false ff (EFn []
+    (BCons (SAssign false true xx ELit)
+    (BCons (SExpr (EVar xx))
+    (BCons (SIf ELit (BCons (SAssign false true xx ELit) BNil) BNil) BNil))))) BNil).
+
+Lemma two_modifies_accepted :
+  check cfg_fixed wit_two_modifies = true /\ no_const_write_b wit_two_modifies = true /\
+  check cfg_745 wit_two_modifies = false /\
+  check cfg_fixed wit_modify_shadow = false /\ check cfg_745 wit_modify_shadow = false.
 Proof. vm_compute. auto. Qed.
